@@ -87,18 +87,6 @@ func (o OneOfSchema[KeyType]) UnserializeType(data any) (result any, err error) 
 		}
 	}
 
-	discriminatorValue := reflectedValue.MapIndex(reflect.ValueOf(o.DiscriminatorFieldNameValue))
-	if !discriminatorValue.IsValid() {
-		return result, &ConstraintError{
-			Message: fmt.Sprintf("Missing discriminator field '%s' in '%v'", o.DiscriminatorFieldNameValue, data),
-		}
-	}
-	discriminator := discriminatorValue.Interface()
-	typedDiscriminator, err := o.getTypedDiscriminator(discriminator)
-	if err != nil {
-		return result, err
-	}
-
 	typedData := make(map[string]any, reflectedValue.Len())
 	for _, k := range reflectedValue.MapKeys() {
 		v := reflectedValue.MapIndex(k)
@@ -112,6 +100,17 @@ func (o OneOfSchema[KeyType]) UnserializeType(data any) (result any, err error) 
 			}
 		}
 		typedData[keyString] = v.Interface()
+	}
+
+	discriminator, found := typedData[o.DiscriminatorFieldNameValue]
+	if !found {
+		return result, &ConstraintError{
+			Message: fmt.Sprintf("Missing discriminator field '%s' in '%v'", o.DiscriminatorFieldNameValue, data),
+		}
+	}
+	typedDiscriminator, err := o.getTypedDiscriminator(discriminator)
+	if err != nil {
+		return result, err
 	}
 
 	selectedType, ok := o.TypesValue[typedDiscriminator]
